@@ -1496,6 +1496,9 @@ pub fn run_c18(tier: Tier) -> Outcome {
     // appended queues of up to 2 elements: longer than the receiver and sharing an item with it
     // (each appended queue is built with its own hasher instance: different RandomState keys)
     cfg.append_max = 2;
+    // constructors from every vector of <= 3 pairs (a repeated item followed by another one needs 3):
+    // From<Vec> / FromIterator build their own hasher with H::default()
+    cfg.root_vec_len = 3;
     let mut fps: Vec<(String, String, u64, u64)> = vec![];
     macro_rules! one {
         ($H:ty, $label:expr) => {{
